@@ -19,15 +19,17 @@ var chkDiff = pipeCheck{"R_mismatch", "diff_indices pinned_knobs regs cases", "m
 var chkLive = pipeCheck{"R_live_violation", "where_not (fun c => live_ok (snd c)) cases", "violation", "liveness differs from path liveness (a register byte class is reported live iff some path reaches a read before a write)"}
 var chkAlloc = pipeCheck{"R_alloc_violation", "where_not (fun c => alloc_ok regs (snd c)) cases", "violation", "allocation invalid: virtual register unmapped / wrong class / restricted register / two values that are live together share bytes of one physical register"}
 var chkSim = pipeCheck{"R_sim_violation", "where_not (fun c => sim_ok (snd c)) cases", "violation", "the proved validator rejects the allocation: under the model's (exact) liveness a definition shares storage with another live value"}
+var chkDisc = pipeCheck{"R_discipline_mismatch", "where_not (fun c => discipline_ok (snd c)) cases", "mismatch", "hypothesis of model_regalloc_preserves_semantics not met by an instruction the real constructors built: a virtual register it reads or writes is not among its operands"}
 var chkBind = pipeCheck{"R_bind_violation", "where_not (fun c => bind_ok regs (snd c)) cases", "violation", "bound code is not the substitution instance: virtual register remains, width view changed, or an author-named register was altered"}
 var chkBP = pipeCheck{"R_bp_violation", "where_not (fun c => bp_ok regs (fattrs (fst c)) (snd c)) cases", "violation", "function writes the base pointer but gets no frame (or NOFRAME is not refused)"}
 
 // emitPipelineCases runs every program through the staged real passes and writes sharded case files.
 func emitPipelineCases(c *Ctx, progs []*Prog, checks []pipeCheck, shard int, nontrivial func(*Prog, *Observed) bool) {
 	o := c.Out
-	o.WriteFile("Tab.v", commonTab(c))
+	o.WriteFile("Tab.v", commonTab(c)+
+		"From Avo Require Import Proofs.AllocCorrect.\n(* hypothesis of model_regalloc_preserves_semantics for the translated register file *)\nLemma regfile_ok_tab : regfile_ok regs = true.\nProof. vm_compute. reflexivity. Qed.\nPrint Assumptions regfile_ok_tab.\n")
 	o.Stage("Tab.v")
-	o.Oblig("Tab.pass_order_ok", "Tab.info_constants_ok")
+	o.Oblig("Tab.pass_order_ok", "Tab.info_constants_ok", "Tab.regfile_ok_tab")
 	stages := map[string]int{}
 	tagCount := map[string]int{}
 	sizes := map[string]int{}
